@@ -16,7 +16,7 @@ for r in res:
         per.setdefault(o['clause'], []).append(o['verdict'])
     for c, vs in per.items():
         led[f"{r['target']}.{c}"] = 'discharged' if all(v == 'unsat' for v in vs) else 'open'
-    if r['status'] != 'ok': led[r['target']] = 'undecided: ' + str(r.get('reason'))[:100]
+    if r['status'] not in ('ok', 'bounded-only'): led[r['target']] = 'undecided: ' + str(r.get('reason'))[:100]
 os.makedirs(os.path.join(HERE, 'baseline'), exist_ok=True)
 json.dump(dict(sorted(led.items())), open(os.path.join(HERE, 'baseline', 'obligations.json'), 'w'), indent=1)
 print(len(led), 'entries;', sum(1 for v in led.values() if v == 'discharged'), 'discharged;', [k for k, v in led.items() if v != 'discharged'])
